@@ -199,7 +199,7 @@ def _gc(keep):
     now = time.time()
     for i, e in enumerate(ents):
         age = now - os.path.getmtime(os.path.join(CACHE_ROOT, e))
-        if age > 6 * 3600 or i >= 40:
+        if age > 6 * 3600 or i >= 16:
             shutil.rmtree(os.path.join(CACHE_ROOT, e), ignore_errors=True)
 
 
